@@ -62,5 +62,6 @@ s = splice(s, "SEEDED-WAVES-1-3", seeded_table(lambda m: bool(re.search(r"^C\d\d
 s = splice(s, "SEEDED-WAVE-4", seeded_table(lambda m: bool(re.search(r"_a\d$", m)), False, True))
 s = splice(s, "SEEDED-WAVE-5", seeded_table(lambda m: bool(re.search(r"_b\d$", m)), False, True))
 s = splice(s, "SEEDED-WAVE-6", seeded_table(lambda m: bool(re.search(r"_c\d$", m)), False, True))
+s = splice(s, "SEEDED-WAVE-7", seeded_table(lambda m: bool(re.search(r"_d\d$", m)), False, True))
 open(p, "w").write(s)
 print("DESIGN.md tables regenerated")
